@@ -1056,8 +1056,52 @@ fn run_fb(case: &str) -> CaseResult {
     r
 }
 
+// ------------------------------------------------------------------------------------------
+// the public `Limits` API call by call (continuing after refusals)
+
+fn run_limits(case: &str) -> CaseResult {
+    use actix_multipart::form::Limits;
+    let total: usize = kv(case, "total").and_then(|v| v.parse().ok()).unwrap_or(0);
+    let mem: usize = kv(case, "mem").and_then(|v| v.parse().ok()).unwrap_or(0);
+    let field: Option<usize> = kv(case, "field").and_then(|v| v.parse().ok());
+    let mut l = Limits::new(total, mem);
+    l.field_limit_remaining = field;
+    let mut out = Vec::new();
+    let mut r = CaseResult::ok(String::new());
+    // reference: sums of what has been accepted so far (per budget)
+    for op in kv(case, "ops").unwrap_or("").split(',').filter(|x| !x.is_empty()) {
+        let Some((b, m)) = op.split_once(':') else { continue };
+        let bytes: usize = b.parse().unwrap_or(0);
+        let in_mem = m == "1";
+        let before = (l.total_limit_remaining, l.memory_limit_remaining, l.field_limit_remaining);
+        let fits = bytes <= before.0 && (!in_mem || bytes <= before.1) && before.2.map_or(true, |f| bytes <= f);
+        let ok = match l.try_consume_limits(bytes, in_mem) {
+            Ok(()) => true,
+            Err(MultipartError::Payload(PayloadError::Overflow)) => false,
+            Err(e) => {
+                r = r.fail("limits-error-kind", format!("{:?}", e));
+                false
+            }
+        };
+        let after = (l.total_limit_remaining, l.memory_limit_remaining, l.field_limit_remaining);
+        if ok != fits {
+            r = r.fail("limits-accept", format!("{} bytes (in_memory={}) on {:?}: accepted={}", bytes, in_mem, before, ok));
+        }
+        if after.0 > before.0 || after.1 > before.1 || after.2.unwrap_or(0) > before.2.unwrap_or(0) {
+            r = r.fail("limits-underflow", format!("budget grew: {:?} -> {:?}", before, after));
+        }
+        if ok && (before.0 - after.0 != bytes || before.1 - after.1 != if in_mem { bytes } else { 0 } || before.2.map_or(false, |f| f - after.2.unwrap_or(0) != bytes)) {
+            r = r.fail("limits-charge", format!("{} bytes charged wrongly: {:?} -> {:?}", bytes, before, after));
+        }
+        out.push(format!("{}@{},{},{}", ok as u8, after.0, after.1, after.2.map_or("-".to_owned(), |f| f.to_string())));
+    }
+    r.output = out.join(" ");
+    r.tag("ex:limits")
+}
+
 fn run(case: &str) -> CaseResult {
     match kv(case, "ex") {
+        Some("lim") => run_limits(case),
         Some("mp") => run_mp(case),
         Some("fb") => run_fb(case),
         Some(ex) => run_stream(case, ex),
@@ -1359,6 +1403,16 @@ fn gen(ctx: &Ctx) -> Vec<String> {
             toks = t2;
         }
         cases.push(format!("ex=fb lim={} body={} cuts={}", lim, body, cuts_str(&toks)));
+    }
+
+    // (L) the public Limits API, call by call
+    for _ in 0..ctx.budget(400) {
+        let total = rng.below(60);
+        let mem = rng.below(40);
+        let field = if rng.chance(1, 2) { rng.below(30).to_string() } else { "none".to_owned() };
+        let k = rng.range(1, 12);
+        let ops: Vec<String> = (0..k).map(|_| format!("{}:{}", rng.below(25), rng.below(2))).collect();
+        cases.push(format!("ex=lim total={} mem={} field={} ops={}", total, mem, field, ops.join(",")));
     }
 
     // (F0) multipart default budgets (no explicit config values): 2 MiB memory, 50 MiB total, ±1
